@@ -267,6 +267,10 @@ pub fn run(args: Args) -> ! {
     finish_run(&mut rep, "mutants", run);
     let run = run_tape("C12.values", &prop_value, 32, args.tier.pick(100_000, 4_000_000), args.seed, w);
     finish_run(&mut rep, "values", run);
+    if args.tier == Tier::Thorough && rep.violations.is_empty() {
+        let seeds: Vec<Vec<u8>> = ["1979-05-27T07:32:00Z", "1979-05-27 07:32:00.999999-07:00", "1979-05-27T00:32:00", "1979-05-27", "07:32:00", "00:32:00.5", "2000-02-29t23:59:60.123456789z"].iter().map(|s| s.as_bytes().to_vec()).collect();
+        fuzz_campaign(&mut rep, "fuzz_c12", &seeds, 12_000_000, 64, w);
+    }
     for c in ["both-accept", "both-reject", "edge-product", "mutant", "struct-generated"] {
         rep.require_class(c);
     }
